@@ -344,9 +344,76 @@ func c14run(out *evid.Out, c *c14case) {
 	}
 }
 
+// lineRec counts the writes it receives.
+type lineRec struct {
+	n    int
+	fail map[int]bool // calls (0-based) that fail with "boom"
+}
+
+func (w *lineRec) Write(p []byte) (int, error) {
+	w.n++
+	if w.fail[w.n-1] {
+		return 0, errors.New("boom")
+	}
+	return len(p), nil
+}
+
+// c14console: the package's own ConsoleWriter as one destination of a MultiLevelWriter (JSON build): a healthy fan-out
+// reports nothing, a failing neighbour is reported with its own error, every destination gets every event once.
+func c14console(out *evid.Out) {
+	if isBinaryBuild() {
+		return
+	}
+	type shape struct {
+		name string
+		mk   func(cons, js io.Writer) io.Writer
+	}
+	cw := func(o io.Writer) io.Writer { return zerolog.ConsoleWriter{Out: o, NoColor: true} }
+	shapes := []shape{
+		{"Multi(Console, json)", func(c, j io.Writer) io.Writer { return zerolog.MultiLevelWriter(cw(c), j) }},
+		{"Multi(json, Console)", func(c, j io.Writer) io.Writer { return zerolog.MultiLevelWriter(j, cw(c)) }},
+		{"Multi(Sync(Console), json)", func(c, j io.Writer) io.Writer { return zerolog.MultiLevelWriter(zerolog.SyncWriter(cw(c)), j) }},
+		{"Multi(NewConsoleWriter, json)", func(c, j io.Writer) io.Writer {
+			return zerolog.MultiLevelWriter(zerolog.NewConsoleWriter(func(w *zerolog.ConsoleWriter) { w.Out, w.NoColor = c, true }), j)
+		}},
+		{"Multi(Filtered(Console), json)", func(c, j io.Writer) io.Writer {
+			return zerolog.MultiLevelWriter(&zerolog.FilteredLevelWriter{Writer: zerolog.LevelWriterAdapter{Writer: cw(c)}, Level: zerolog.TraceLevel}, j)
+		}},
+	}
+	old := zerolog.ErrorHandler
+	defer func() { zerolog.ErrorHandler = old }()
+	for _, sh := range shapes {
+		for failAt := -1; failAt < 3; failAt++ {
+			cons, js := &lineRec{}, &lineRec{fail: map[int]bool{failAt: true}}
+			var handled []string
+			zerolog.ErrorHandler = func(err error) { handled = append(handled, err.Error()) }
+			l := zerolog.New(sh.mk(cons, js))
+			for i := 0; i < 3; i++ {
+				l.Info().Int("i", i).Str("k", "v w").Msg("console fan-out")
+			}
+			want := []string{}
+			if failAt >= 0 {
+				want = []string{"boom"}
+			}
+			rep := map[string]interface{}{"check": "c14", "shape": sh.name, "failing_call_of_the_json_destination": failAt}
+			if fmt.Sprint(handled) != fmt.Sprint(want) {
+				out.Violate("console-destination:handler", fmt.Sprintf("%s, json destination failing at call %d: ErrorHandler got %v, specified %v", sh.name, failAt, handled, want), rep)
+			}
+			if cons.n != 3 || js.n != 3 {
+				out.Violate("console-destination:delivery", fmt.Sprintf("%s: three events, the ConsoleWriter's Out got %d writes, the json destination %d", sh.name, cons.n, js.n), rep)
+			}
+			out.Count("console_destination_cases", 1)
+			out.Evaluations++
+		}
+	}
+}
+
 func c14(args []string) int {
 	f := mustFlags(args)
 	out := evid.New("C14")
+	if f.Shard == 0 {
+		c14console(out)
+	}
 	maxE := 3
 	if f.Thorough() {
 		maxE = 4
